@@ -71,6 +71,23 @@ def findings_c01():
     return out
 
 
+def findings_opt():
+    """Open findings that need an optimisation level to manifest (C02/C03)."""
+    out = []
+    body = {"e": "seq", "t": UNIT, "es": [
+        {"e": "yield", "v": {"e": "try", "t": SI, "body": {"e": "len", "l": var("p1")},
+                              "hs": [{"exn": "Ex0", "ps": [], "body": {"e": "len", "l": var("g17")}},
+                                     {"exn": "Ex2", "ps": [], "body": lit(SI, -4)}], "fin": {"e": "none"}}}]}
+    f = {"name": "f1", "ps": ["p1", "p2"], "pts": [["list", BI], BOOL], "rt": ["gen", SI], "pure": False,
+         "body": {"e": "gen", "body": body, "et": SI}}
+    out.append(prog("F8_try_in_generator", [
+        gvar("g17", ["list", BI], {"e": "list", "t": ["list", BI], "args": [lit(BI, 2**64)]}),
+        stmt({"e": "forin", "x": "e1", "et": SI, "src": {"e": "call", "fi": 1, "args": [
+            {"e": "list", "t": ["list", BI], "args": [lit(BI, 5), lit(BI, 6)]}, {"e": "bool", "b": True}]}, "body": block(pr(var("e1")))})],
+        funs=[f], exns=["Ex0", "Ex1", "Ex2"], order=[["t", 0], ["f", 0], ["t", 1]]))
+    return out
+
+
 def fixed_regressions():
     """Programs that failed before a `fix:` commit: they must pass now (and report a violation if the defect returns)."""
     out = []
